@@ -1,0 +1,29 @@
+//go:build verif
+
+// Contracts (machine-checked by /verif/bin/govc).  Comment-only file.
+
+package tglib
+
+//@ func NASEncode
+//@ prop C06
+//@ opaque snow3gspec.S1 snow3gspec.S2 snow3gspec.MULa snow3gspec.DIVa snow3gspec.Init snow3gspec.Step snow3gspec.Out snow3gspec.Iter nasalg.MUL64 nasalg.MULxPOW64 nasalg.EIA1Fold nasalg.EEA1KeystreamByte nasalg.EEA2KeystreamByte
+//@ maynil ue msg
+//@ requires algs: ue == nil || ((ue.IntegrityAlg == 1 || ue.IntegrityAlg == 2) && ue.CipheringAlg <= 2)
+//@ let plain0, perr0 := msg.PlainNasEncode()
+//@ let c0 := vcCount0(ue, newSecurityContext)
+//@ ensures nilargs: vc.Imp(ue == nil || msg == nil, err != nil)
+//@ ensures noctx: vc.Imp(ue != nil && msg != nil && !securityContextAvailable, (err == nil) == (perr0 == nil) && len(payload) == len(plain0) && vc.Forall(0, len(plain0), func(j int) bool { return payload[j] == plain0[j] }))
+//@ ensures noctxcount: vc.Imp(ue != nil && msg != nil && !securityContextAvailable, ue.ULCount.Get() == old(ue.ULCount.Get()) && ue.DLCount.Get() == old(ue.DLCount.Get()))
+//@ ensures plainerr: vc.Imp(ue != nil && msg != nil && securityContextAvailable && perr0 != nil, err != nil)
+//@ ensures ok: vc.Imp(ue != nil && msg != nil && securityContextAvailable && perr0 == nil, err == nil && len(payload) == 7+len(plain0))
+//@ ensures header: vc.Imp(ue != nil && msg != nil && securityContextAvailable && perr0 == nil, payload[0] == msg.SecurityHeader.ProtocolDiscriminator && payload[1] == msg.SecurityHeader.SecurityHeaderType)
+//@ ensures sqn: vc.Imp(ue != nil && msg != nil && securityContextAvailable && perr0 == nil, payload[6] == uint8(c0))
+//@ ensures clear: vc.Imp(ue != nil && msg != nil && securityContextAvailable && perr0 == nil && (ue.CipheringAlg == 0 || !vcCiphered(msg.SecurityHeader.SecurityHeaderType)), vc.Forall(0, len(plain0), func(j int) bool { return payload[7+j] == plain0[j] }))
+//@ ensures nea1: vc.Imp(ue != nil && msg != nil && securityContextAvailable && perr0 == nil && ue.CipheringAlg == 1 && vcCiphered(msg.SecurityHeader.SecurityHeaderType), vc.Forall(0, len(plain0), func(j int) bool { return payload[7+j] == plain0[j]^nasalg.EEA1KeystreamByte(ue.KnasEnc, c0, 1, 0, j) }))
+//@ ensures nea2: vc.Imp(ue != nil && msg != nil && securityContextAvailable && perr0 == nil && ue.CipheringAlg == 2 && vcCiphered(msg.SecurityHeader.SecurityHeaderType), vc.Forall(0, len(plain0), func(j int) bool { return payload[7+j] == plain0[j]^nasalg.EEA2KeystreamByte(ue.KnasEnc, c0, 1, 0, j) }))
+//@ ensures mac1: vc.Imp(ue != nil && msg != nil && securityContextAvailable && perr0 == nil && ue.IntegrityAlg == 1, [4]byte{payload[2], payload[3], payload[4], payload[5]} == nasalg.EIA1(ue.KnasInt, c0, 1, 0, payload[6:]))
+//@ ensures mac2: vc.Imp(ue != nil && msg != nil && securityContextAvailable && perr0 == nil && ue.IntegrityAlg == 2, [4]byte{payload[2], payload[3], payload[4], payload[5]} == nasalg.EIA2(ue.KnasInt, c0, 1, 0, payload[6:]))
+//@ ensures ulcount: vc.Imp(ue != nil && msg != nil && securityContextAvailable && perr0 == nil, ue.ULCount.Get() == (c0+1)&0xffffff)
+//@ ensures dlcount: vc.Imp(ue != nil && msg != nil && securityContextAvailable && perr0 == nil, ue.DLCount.Get() == vcDL0(old(ue.DLCount.Get()), newSecurityContext))
+//@ assigns &ue.ULCount, &ue.DLCount
+//@ assigns global free5gclib/nas/security/snow3g.lfsr free5gclib/nas/security/snow3g.fsm
